@@ -14,6 +14,7 @@ import (
 	"github.com/yorkie-team/yorkie/pkg/document/presence/inner"
 	"github.com/yorkie-team/yorkie/server/backend/database"
 	"github.com/yorkie-team/yorkie/server/backend/database/mongo"
+	"github.com/yorkie-team/yorkie/server/documents"
 	"github.com/yorkie-team/yorkie/server/packs"
 
 	"verif/internal/boot"
@@ -473,6 +474,13 @@ func (w *c20Worker) runSnapshots(res *runner.CaseResult, idx int, replay *sim.Hi
 		h = world.RunGenerated(caseRng(w.seed, idx), g)
 	}
 	probe()
+	if len(fails) == 0 && len(world.Fail) == 0 && applied >= 3 && idx%2 == 0 {
+		// epilogue: a compaction rewrites the log (it restarts at server sequence 1); the
+		// new generation then outgrows the old one before anything asks for the document
+		// again. Whatever the cache still holds is an OLD-generation document under a
+		// server sequence the new generation reaches too.
+		w.compactionEpilogue(ctx, res, world, applied, &fails)
+	}
 	res.Hash = runner.HashOf(h.Steps)
 	historyStats(res, world, h)
 	res.Nontrivial = applied >= 5
@@ -483,6 +491,75 @@ func (w *c20Worker) runSnapshots(res *runner.CaseResult, idx int, replay *sim.Hi
 	}
 	if idx%97 == 2 || len(res.Viol) > 0 {
 		res.Sample = sampleOf(h, map[string]any{"family": "snapshots", "snapshot_interval": cfg.Snap, "log_rows": applied})
+	}
+}
+
+func (w *c20Worker) compactionEpilogue(ctx context.Context, res *runner.CaseResult, world *sim.World, oldHead int64, fails *[]sim.Failure) {
+	// the per-step probe compares with the shadow of the OLD generation: off from here on
+	world.AfterStep = nil
+	di, err := world.DocInfo()
+	if err != nil || di == nil {
+		return
+	}
+	// the cache holds the document at the old head
+	if _, err := packs.BuildInternalDocForServerSeq(ctx, w.env.BE, di, di.ServerSeq); err != nil {
+		return
+	}
+	ok, err := documents.CompactDocument(ctx, w.env.BE, world.Project, di, true)
+	w.env.WaitIdle()
+	if err != nil || !ok {
+		res.AddStat("epilogue_compaction_failed_not_judged", 1) // C10's matter
+		return
+	}
+	res.AddStat("compactions", 1)
+	nrep := len(world.Reps)
+	world.Exec(sim.Step{T: "attach", R: nrep})
+	if len(world.Fail) > 0 {
+		return
+	}
+	for k := int64(0); k < oldHead+3 && k < 90; k++ {
+		world.Exec(sim.Step{T: "edit", R: nrep, E: []gen.Edit{{Op: "obj.set", K: fmt.Sprintf("g2-%d", k%7), V: &gen.Val{T: "int", I: k}}}})
+		world.Exec(sim.Step{T: "sync", R: nrep})
+	}
+	if len(world.Fail) > 0 {
+		return
+	}
+	w.env.WaitIdle()
+	di2, err := world.DocInfo()
+	if err != nil || di2 == nil {
+		return
+	}
+	log, err := world.ServerLog()
+	if err != nil {
+		return
+	}
+	shadow := document.NewInternalDocument(world.DocKey)
+	want := map[int64]string{}
+	for _, row := range log {
+		c, err := row.ToChange()
+		if err != nil {
+			return
+		}
+		if _, _, err := shadow.ApplyChanges(c); err != nil {
+			res.AddStat("shadow_apply_failed_not_judged", 1)
+			return
+		}
+		want[row.ServerSeq] = shadow.Marshal()
+	}
+	for _, s := range []int64{di2.ServerSeq, oldHead, oldHead + 1, di2.ServerSeq} {
+		if s < 1 || s > di2.ServerSeq {
+			continue
+		}
+		doc, err := packs.BuildInternalDocForServerSeq(ctx, w.env.BE, di2, s)
+		if err != nil {
+			*fails = append(*fails, sim.Failure{Kind: "rebuild-failed", Detail: fmt.Sprintf("after a compaction: BuildInternalDocForServerSeq(%d) with head %d: %v", s, di2.ServerSeq, err)})
+			return
+		}
+		res.AddStat("rebuilds_compared_after_compaction", 1)
+		if got := doc.Marshal(); got != want[s] {
+			*fails = append(*fails, sim.Failure{Kind: "cache-served-document-differs", Detail: fmt.Sprintf("after a compaction at old head %d and %d rows of the new generation: BuildInternalDocForServerSeq(%d)\n got  %s\n want %s (change-fed shadow of the stored log)", oldHead, len(log), s, trunc400(got), trunc400(want[s]))})
+			return
+		}
 	}
 }
 
